@@ -202,7 +202,9 @@ def run(ctx: Ctx) -> int:
         canon = canon_hier if cyclic else (lambda d: canon_full(d, multi_sites))
         groups: Dict[str, List[List[int]]] = collections.defaultdict(list)
         for r in rs:
-            groups[canon(r["real"]["dump"])].append(r["sched"])
+            # a run that aborts documents nothing: "aborted" is an outcome of its own
+            crashed = r["real"].get("crashed")
+            groups[json.dumps({"aborted": crashed.split(":")[0]}) if crashed else canon(r["real"]["dump"])].append(r["sched"])
         sdumps = {json.dumps(procrun.spec_dump(r["spec"]), sort_keys=True) for r in rs}
         if len(sdumps) > 1 and not cyclic:
             order_dependent_model += 1
@@ -237,7 +239,7 @@ def run(ctx: Ctx) -> int:
             r = random.Random(ctx.seed * 1000 + k)
             b = P.build_sources(paths=[p], record_states=False, rank=random_rank(r) if k else None)
             ctx.traces += 1
-            d = generic_dump(b["system"])
+            d = {"aborted": b["crashed"].split(":")[0]} if b["crashed"] else generic_dump(b["system"])
             s = json.dumps(d, sort_keys=True)
             dumps[s] = k
             if first is None:
